@@ -1087,6 +1087,125 @@ func runC03(c *core.Ctx) core.Meta {
 		}
 	}
 
+	// ---------------- R03.12 conditional moves select with the right polarity ----------------
+	st12 := c.Rule("R03.12", "v_cndmask_b32 writes S1 where the lane's bit of the condition mask (VCC, or the SGPR pair in SRC2) is set and S0 where it is clear; s_cselect writes S0 when SCC is 1 and S1 otherwise; s_cmov / s_cmovk write only when SCC is 1: decided by resolving the handler's test of the selector both ways and following the value that reaches the destination write", 6)
+	selName := regexp.MustCompile(`^(v_cndmask_b32|s_cselect_b(32|64)|s_cmovk?_[ib](32|64))(_e32|_e64)?$`)
+	seen12 := map[string]bool{}
+	for _, h := range handlers {
+		for _, iname := range h.insts {
+			m := selName.FindStringSubmatch(iname)
+			if m == nil || seen12[h.alu.pkg+"."+h.name] {
+				continue
+			}
+			seen12[h.alu.pkg+"."+h.name] = true
+			fn := c.SSAFunc(h.alu.pkg, h.alu.typ+"."+h.name)
+			if fn == nil {
+				continue
+			}
+			isSel := func(cond ssa.Value) (setOnTrue bool, ok bool) {
+				bo, isB := cond.(*ssa.BinOp)
+				if !isB {
+					return false, false
+				}
+				pv := prov.Of(bo.X)
+				k, isC := core.ConstInt(bo.Y)
+				if !isC {
+					if ku, isU := core.ConstUint(bo.Y); isU {
+						k, isC = int64(ku), true
+					}
+				}
+				if !isC || strings.Contains(pv, ".EXEC()") {
+					return false, false
+				}
+				vector := strings.HasPrefix(m[1], "v_")
+				if vector && !(strings.Contains(pv, ".VCC()") || strings.Contains(pv, ".Src2")) {
+					return false, false
+				}
+				if !vector && !strings.Contains(pv, ".SCC()") {
+					return false, false
+				}
+				switch {
+				case (bo.Op == token.NEQ || bo.Op == token.GTR) && k == 0, bo.Op == token.EQL && k == 1 && !vector:
+					return true, true
+				case bo.Op == token.EQL && k == 0, bo.Op == token.NEQ && k == 1 && !vector:
+					return false, true
+				}
+				return false, false
+			}
+			operandOf := func(v ssa.Value) string {
+				pv := prov.Of(v)
+				switch {
+				case strings.Contains(pv, ".Src0") && !strings.Contains(pv, ".Src1"):
+					return "S0"
+				case strings.Contains(pv, ".Src1") && !strings.Contains(pv, ".Src0"):
+					return "S1"
+				case strings.Contains(pv, ".SImm16"):
+					return "SIMM16"
+				}
+				return "?"
+			}
+			written := func(selSet bool) (map[string]bool, bool) {
+				out := map[string]bool{}
+				saw := false
+				seen := map[*ssa.BasicBlock]bool{}
+				var walk func(b *ssa.BasicBlock)
+				walk = func(b *ssa.BasicBlock) {
+					if seen[b] {
+						return
+					}
+					seen[b] = true
+					for _, in := range b.Instrs {
+						if name, cc := stateMethod(in); name == "WriteOperand" && strings.HasSuffix(prov.Of(cc.Args[0]), ".Dst") {
+							out[operandOf(cc.Args[len(cc.Args)-1])] = true
+						}
+					}
+					if iff, ok := b.Instrs[len(b.Instrs)-1].(*ssa.If); ok {
+						if setOnTrue, ok := isSel(iff.Cond); ok {
+							saw = true
+							if setOnTrue == selSet {
+								walk(b.Succs[0])
+							} else {
+								walk(b.Succs[1])
+							}
+							return
+						}
+					}
+					for _, sc := range b.Succs {
+						walk(sc)
+					}
+				}
+				walk(fn.Blocks[0])
+				return out, saw
+			}
+			onSet, saw := written(true)
+			onClear, _ := written(false)
+			if !saw {
+				st12.Sample("%s.%s (%s): selector test not recognised; not modelled", h.alu.typ, h.name, iname)
+				continue
+			}
+			st12.Instances++
+			c.MarkAnalysed(fn)
+			var wantSet, wantClear string
+			switch {
+			case strings.HasPrefix(m[1], "v_cndmask"):
+				wantSet, wantClear = "S1", "S0"
+			case strings.HasPrefix(m[1], "s_cselect"):
+				wantSet, wantClear = "S0", "S1"
+			case strings.HasPrefix(m[1], "s_cmovk"):
+				wantSet, wantClear = "SIMM16", ""
+			default:
+				wantSet, wantClear = "S0", ""
+			}
+			gotSet, gotClear := strings.Join(sortedKeys(onSet), "+"), strings.Join(sortedKeys(onClear), "+")
+			ok := gotSet == wantSet && gotClear == wantClear
+			st12.Ob(ok)
+			st12.Sample("%s.%s (%s): selector set -> %q, clear -> %q", h.alu.typ, h.name, iname, gotSet, gotClear)
+			if !ok {
+				c.ReportAt("R03.12", fn, fn.Pos(), "select-polarity:"+m[1], fmt.Sprintf("%s writes %q when the selector is set and %q when it is clear; %s writes %q and %q", h.name, gotSet, gotClear, iname, wantSet, wantClear))
+			}
+		}
+	}
+
 	// ---------------- R03.2 shift-amount masking ----------------
 	st2 := c.Rule("R03.2", "in handlers of shift instructions (tied to their names through decode table -> dispatch switch -> callee) every data-dependent shift amount is confined to [0, W-1] (W from the instruction name) by a mask or modulus before it reaches the Go shift, because Go saturates where the ISA uses the low 4/5/6 bits", 15)
 	seenH := map[string]bool{}
